@@ -105,6 +105,8 @@ def mkjob(inst: Instance, none_tasks: frozenset[str] = frozenset()) -> JobInstan
         # inputs; graph2job writes a placeholder at edge-fed positions): the upstream value must win.
         kw_static = {"_t": t, "_n": len(outs), "s": f"static-{t}"}
         ps_static = {str(npos[t]): f"pos-{t}"}
+        if "!" + t in none_tasks:
+            ps_static[str(npos[t] + 1)] = None      # a genuine static None in the highest positional slot
         for (s_, o_, d_), b in bind.items():
             if d_ == t and isinstance(b, str):
                 kw_static[b] = f"default-{t}-{b}"
@@ -120,7 +122,7 @@ def mkjob(inst: Instance, none_tasks: frozenset[str] = frozenset()) -> JobInstan
         edges.append(Task2TaskEdge(source=DatasetId(s, o), sink_task=d, sink_input_kw=f"dup{n}", sink_input_ps=None))
         tasks[d].static_input_kw[f"dup{n}"] = f"default-dup{n}"
     serdes = {}
-    if any(x[:1] in "@^&" for x in none_tasks):
+    if any(x[:1] in "@^&" for x in none_tasks if x):
         from cascade.low.core import type_enc
         # registration order matters to nobody: each type keeps its own serialiser
         serdes = {type_enc(bodies.Boxed): ("harness.sim.bodies.ser_boxed", "harness.sim.bodies.des_boxed"),
@@ -149,6 +151,8 @@ def sequential(inst: Instance, none_tasks: frozenset[str] = frozenset()) -> dict
             args: list[Any] = [None] * (npos[t] + 1)
             kwargs: dict[str, Any] = {"s": f"static-{t}"}
             args[npos[t]] = f"pos-{t}"
+            if "!" + t in none_tasks:
+                args.append(None)
             for e, b in ins:
                 if isinstance(b, int):
                     args[b] = vals[(e[0], e[1])]
